@@ -60,6 +60,18 @@ func (sc *Scenario) E3Eligible() bool {
 	if len(sc.Faults) > 0 || len(sc.Ticks) > 0 || sc.WriteOracle || sc.RefreshLoop || sc.AfterBoot != nil || len(sc.RefuseDial) > 0 || sc.Whitelist != nil || sc.HandshakeCuts != nil {
 		return false
 	}
+	if !sc.DisableSlave {
+		// with two or more replicas the real binary draws the read replica at random
+		cnt := map[string]int{}
+		for _, n := range sc.Nodes {
+			if n.Master != "" {
+				cnt[n.Master]++
+				if cnt[n.Master] > 1 {
+					return false
+				}
+			}
+		}
+	}
 	for _, c := range sc.Clients {
 		if c.CloseAfter > 0 {
 			return false
